@@ -40,7 +40,11 @@ inline void workflow(int rank, const std::map<std::string,long>& cp, Dump& out, 
     P.make_rho(beta); P.make_ops(); P.make_gf(); int M = P.M;
     for (int i = 0; i < M; ++i) for (int j = 0; j < M; ++j) for (long n = -1; n <= 1; ++n) put(out, "G", (*P.G)(i, j)(n));
     std::vector<FT> freqs; std::vector<std::array<long,3> > tri = { { 0, 0, 0 }, { 0, -1, 0 }, { 1, -2, 0 }, { -1, 0, 1 } };
-    for (auto& t : tri) freqs.push_back(FT(refed::matsubara_f(beta, t[0]), refed::matsubara_f(beta, t[1]), refed::matsubara_f(beta, t[2])));
+    // "freqrep" > 1 (free-running OpenMP pass): a long list in which every triple is repeated several times in a row, so that
+    // loop iterations that (wrongly) communicate through shared state overlap in time
+    int freqrep = cp.count("freqrep") ? (int)cp.at("freqrep") : 1;
+    if (freqrep > 1) for (long n1 = -2; n1 <= 1; ++n1) for (long n3 = -1; n3 <= 1; ++n3) { std::array<long,3> t = { n1, -n1 - 1 + n3, n3 }; bool dup = false; for (auto& u : tri) if (u == t) dup = true; if (!dup) tri.push_back(t); }
+    for (auto& t : tri) for (int r = 0; r < freqrep; ++r) freqs.push_back(FT(refed::matsubara_f(beta, t[0]), refed::matsubara_f(beta, t[1]), refed::matsubara_f(beta, t[2])));
     auto dig_terms = [&](TwoParticleGF& X, uint64_t h) { for (auto* p : X.parts) { h = vmpi::hash_bytes(&p->Status, sizeof(unsigned), h); for (auto& t : p->NonResonantTerms.data) { double v[6] = { t.Coeff.real(), t.Coeff.imag(), t.Poles[0], t.Poles[1], t.Poles[2], double(t.isz4) + 2 * t.Weight }; h = digest_doubles(v, 6, h); } for (auto& t : p->ResonantTerms.data) { double v[8] = { t.ResCoeff.real(), t.ResCoeff.imag(), t.NonResCoeff.real(), t.NonResCoeff.imag(), t.Poles[0], t.Poles[1], t.Poles[2], double(t.isz1z2) + 2 * t.Weight }; h = digest_doubles(v, 8, h); } } return h; };
     if (phase >= 2) for (int k = 0; k < ncomp; ++k) {
         const int* q = COMPS[k]; if (q[0] >= M || q[1] >= M || q[2] >= M || q[3] >= M) continue;
